@@ -535,4 +535,121 @@ theorem validateF_np (cfg : Cfg) (hc : cfg.addlItemsBound = false) (opts : Opts)
       simp only []
       exact ih t (hdefs name t hd) p x
 
+
+/-! ### references known at every node, also below a node that is itself a reference -/
+
+mutual
+/-- every `$ref` anywhere in the schema is known — including in the siblings of a `$ref`, which the validator built for
+    the node ignores but the walkers of the default and example validators visit -/
+def allRefsKnown (known : String → Bool) : Schema → Bool
+  | .mk b itemsS itemsT addItemsS props patProps addPropsS depSchemas allOf anyOf oneOf nt =>
+    (b.ref == "" || known b.ref)
+    && (match itemsS with | some s => allRefsKnown known s | none => true)
+    && allRefsKnownL known itemsT
+    && (match addItemsS with | some s => allRefsKnown known s | none => true)
+    && allRefsKnownM known props && allRefsKnownM known patProps
+    && (match addPropsS with | some s => allRefsKnown known s | none => true)
+    && allRefsKnownM known depSchemas
+    && allRefsKnownL known allOf && allRefsKnownL known anyOf && allRefsKnownL known oneOf
+    && (match nt with | some s => allRefsKnown known s | none => true)
+termination_by structural s => s
+def allRefsKnownL (known : String → Bool) : List Schema → Bool
+  | [] => true
+  | s :: ss => allRefsKnown known s && allRefsKnownL known ss
+termination_by structural l => l
+def allRefsKnownM (known : String → Bool) : List (String × Schema) → Bool
+  | [] => true
+  | (_, s) :: ps => allRefsKnown known s && allRefsKnownM known ps
+termination_by structural l => l
+end
+
+theorem allRefsKnown_mk (known : String → Bool) (b : SBase) (itemsS : Option Schema) (itemsT : List Schema) (addItemsS : Option Schema)
+    (props patProps : List (String × Schema)) (addPropsS : Option Schema) (depSchemas : List (String × Schema))
+    (allOf anyOf oneOf : List Schema) (nt : Option Schema) :
+    allRefsKnown known (.mk b itemsS itemsT addItemsS props patProps addPropsS depSchemas allOf anyOf oneOf nt) =
+    ((b.ref == "" || known b.ref)
+    && (match itemsS with | some s => allRefsKnown known s | none => true)
+    && allRefsKnownL known itemsT
+    && (match addItemsS with | some s => allRefsKnown known s | none => true)
+    && allRefsKnownM known props && allRefsKnownM known patProps
+    && (match addPropsS with | some s => allRefsKnown known s | none => true)
+    && allRefsKnownM known depSchemas
+    && allRefsKnownL known allOf && allRefsKnownL known anyOf && allRefsKnownL known oneOf
+    && (match nt with | some s => allRefsKnown known s | none => true)) := by
+  cases itemsS <;> cases addItemsS <;> cases addPropsS <;> cases nt <;> rfl
+
+theorem allRefsKnownL_mem (known : String → Bool) (l : List Schema) (h : allRefsKnownL known l = true) :
+    ∀ s ∈ l, allRefsKnown known s = true := by
+  induction l with
+  | nil => intro s hs; cases hs
+  | cons a l ih =>
+    simp only [allRefsKnownL, Bool.and_eq_true] at h
+    intro s hs
+    rcases List.mem_cons.mp hs with rfl | hs
+    · exact h.1
+    · exact ih h.2 s hs
+
+theorem allRefsKnownM_mem (known : String → Bool) (l : List (String × Schema)) (h : allRefsKnownM known l = true) :
+    ∀ p ∈ l, allRefsKnown known p.2 = true := by
+  induction l with
+  | nil => intro s hs; cases hs
+  | cons a l ih =>
+    obtain ⟨k, t⟩ := a
+    simp only [allRefsKnownM, Bool.and_eq_true] at h
+    intro s hs
+    rcases List.mem_cons.mp hs with rfl | hs
+    · exact h.1
+    · exact ih h.2 s hs
+
+mutual
+theorem allRefsKnown_refsKnown (known : String → Bool) (s : Schema) (h : allRefsKnown known s = true) :
+    refsKnown known s = true := by
+  match s with
+  | .mk b itemsS itemsT addItemsS props patProps addPropsS depSchemas allOf anyOf oneOf nt =>
+    rw [allRefsKnown_mk] at h
+    rw [refsKnown_mk]
+    simp only [Bool.and_eq_true, Bool.or_eq_true, beq_iff_eq] at h
+    obtain ⟨⟨⟨⟨⟨⟨⟨⟨⟨⟨⟨h0, h1⟩, h2⟩, h3⟩, h4⟩, h5⟩, h6⟩, h7⟩, h8⟩, h9⟩, h10⟩, h11⟩ := h
+    by_cases hr : b.ref = ""
+    · have : (b.ref != "") = false := by simp [hr]
+      simp only [this, Bool.false_eq_true, ↓reduceIte, Bool.and_eq_true]
+      refine ⟨⟨⟨⟨⟨⟨⟨⟨⟨⟨?_, allRefsKnownL_refsKnownL known itemsT h2⟩, ?_⟩, allRefsKnownM_refsKnownM known props h4⟩,
+        allRefsKnownM_refsKnownM known patProps h5⟩, ?_⟩, allRefsKnownM_refsKnownM known depSchemas h7⟩,
+        allRefsKnownL_refsKnownL known allOf h8⟩, allRefsKnownL_refsKnownL known anyOf h9⟩,
+        allRefsKnownL_refsKnownL known oneOf h10⟩, ?_⟩
+      · cases itemsS with
+        | none => rfl
+        | some t => exact allRefsKnown_refsKnown known t h1
+      · cases addItemsS with
+        | none => rfl
+        | some t => exact allRefsKnown_refsKnown known t h3
+      · cases addPropsS with
+        | none => rfl
+        | some t => exact allRefsKnown_refsKnown known t h6
+      · cases nt with
+        | none => rfl
+        | some t => exact allRefsKnown_refsKnown known t h11
+    · have : (b.ref != "") = true := by simpa using hr
+      simp only [this, ↓reduceIte]
+      rcases h0 with h0 | h0
+      · exact absurd h0 hr
+      · exact h0
+theorem allRefsKnownL_refsKnownL (known : String → Bool) (l : List Schema) (h : allRefsKnownL known l = true) :
+    refsKnownL known l = true := by
+  match l with
+  | [] => rfl
+  | s :: ss =>
+    simp only [allRefsKnownL, Bool.and_eq_true] at h
+    simp only [refsKnownL, Bool.and_eq_true]
+    exact ⟨allRefsKnown_refsKnown known s h.1, allRefsKnownL_refsKnownL known ss h.2⟩
+theorem allRefsKnownM_refsKnownM (known : String → Bool) (l : List (String × Schema)) (h : allRefsKnownM known l = true) :
+    refsKnownM known l = true := by
+  match l with
+  | [] => rfl
+  | (k, s) :: ps =>
+    simp only [allRefsKnownM, Bool.and_eq_true] at h
+    simp only [refsKnownM, Bool.and_eq_true]
+    exact ⟨allRefsKnown_refsKnown known s h.1, allRefsKnownM_refsKnownM known ps h.2⟩
+end
+
 end VM
